@@ -152,6 +152,7 @@ static inline ll_fx ll_fx_mul(ll_fx a, ll_fx b) { int64_t p = (int64_t)a * (int6
 static inline ll_fx ll_fx_div(ll_fx a, ll_fx b) { LL_FX_OBL(b != 0, "division by zero"); int64_t n = (int64_t)a * (1 << LL_DYADIC_K); if (b == 0) return 0; LL_FX_OBL(n % b == 0, "quotient on the grid (exact)"); return ll_fx_chk(n / b); }
 static inline ll_fx ll_fx_fromint(int64_t x) { return ll_fx_chk(x * (1 << LL_DYADIC_K)); }
 static inline int64_t ll_fx_toint(ll_fx a) { return (int64_t)a / (1 << LL_DYADIC_K); }     /* truncates toward zero like fptosi */
+static inline ll_fx ll_fx_zero_or_fail(ll_fx a) { LL_FX_OBL(a == 0, "multiplication/division by an off-grid constant is exact only for 0"); return 0; }
 #define LL_FX_INEXACT(v) (LL_FX_OBL(0, "float constant off the grid is used"), (ll_fx)(v))
 #define LL_FX_UNSUPPORTED(m) LL_FX_OBL(0, "unsupported float construct reached: " m)
 #endif
